@@ -382,7 +382,10 @@ def m_into(eng, call, args):
             return mk("choice_bool", args[0])
         if "Box<dyn" in dst[0]:
             return mk("boxed_err", args[0])
-    return mk("conv", args[0])
+    a = args[0]
+    if a.op in ("ref", "refv", "refo") and len(subs) > 1 and subs[0][0].startswith("&") and not subs[1][0].startswith("&"):
+        a = val(eng, call, a)     # &[T] -> Vec<T>, &str -> String ...: an owned copy of the referent
+    return mk("conv", a)
 
 
 @model("std::num::<impl u32>::to_le_bytes", "std::num::<impl usize>::to_le_bytes", "std::num::<impl u64>::to_le_bytes",
@@ -774,27 +777,24 @@ def m_collect(eng, call, args):
     dst = subs[1][0] if len(subs) > 1 else ""
     it = args[0]
     e = elem_of(eng, call, it)
-    if dst.startswith("std::option::Option<"):
-        # Option<Vec<T>> from an iterator of Option<T>: None if any element is None
-        ee = as_enum(e, "std::option::Option", OPT)
-        inner = [a for a in ee.args[1] if a[0] == 1]
-        pay = inner[0][2][0] if inner else mk("never")
+    if dst.startswith("std::option::Option<") or dst.startswith("std::result::Result<"):
+        # Option<Vec<T>> / Result<Vec<T>, E> from an iterator of Option<T> / Result<T, E>: the collection exists only
+        # if every element was Some / Ok, so the element's success facts carry over to the collected value
+        is_opt = dst.startswith("std::option::Option<")
+        adt = "std::option::Option" if is_opt else "std::result::Result"
+        ee = as_enum(e, adt, OPT if is_opt else RES)
+        good_idx = 1 if is_opt else 0
+        inner = [a for a in ee.args[1] if a[0] == good_idx]
+        bad = [a for a in ee.args[1] if a[0] != good_idx]
+        pay = inner[0][2][0] if inner and inner[0][2] else mk("never")
         col = mk("collected", mk("mapped", it, pay))
-        has_none = any(a[0] == 0 for a in ee.args[1])
-        alts = [(1, "Some", [col], [])]
-        if has_none:
-            alts.insert(0, (0, "None", [], []))
-        return two_way("std::option::Option", alts)
-    if dst.startswith("std::result::Result<"):
-        ee = as_enum(e, "std::result::Result", RES)
-        inner = [a for a in ee.args[1] if a[0] == 0]
-        pay = inner[0][2][0] if inner else mk("never")
-        col = mk("collected", mk("mapped", it, pay))
-        alts = [(0, "Ok", [col], [])]
-        errs = [a for a in ee.args[1] if a[0] == 1]
-        if errs:
-            alts.append((1, "Err", list(errs[0][2]), []))
-        return two_way("std::result::Result", alts)
+        alts = []
+        if inner:
+            alts.append((good_idx, "Some" if is_opt else "Ok", (col,), inner[0][3], inner[0][4]))
+        if bad:
+            alts.append((bad[0][0], bad[0][1], bad[0][2], frozenset(), frozenset()))
+        alts.sort(key=lambda a: a[0])
+        return mk("enum", adt, tuple(alts))
     return mk("collected", it)
 
 
